@@ -406,11 +406,18 @@ def direct_mutations(fn: ast.FunctionDef, params: list[str]) -> set[str]:
                         alias[t.elts[1].id] = r
                     elif it.func.attr == "values" and isinstance(t, ast.Name):
                         alias[t.id] = r
-    def mark(name):
+    same: dict[str, str] = {}  # x = y (plain name aliasing)
+    for n in ast.walk(fn):
+        if isinstance(n, ast.Assign) and len(n.targets) == 1 and isinstance(n.targets[0], ast.Name) and isinstance(n.value, ast.Name):
+            same[n.targets[0].id] = n.value.id
+
+    def mark(name, depth=0):
         if name in params:
             muts.add(name)
         elif name in alias:
             muts.add(alias[name])
+        elif name in same and depth < 10:
+            mark(same[name], depth + 1)
     for n in ast.walk(fn):
         if isinstance(n, (ast.Assign, ast.AugAssign)):
             tgts = n.targets if isinstance(n, ast.Assign) else [n.target]
@@ -452,6 +459,7 @@ class FnTranslator:
         self.external_state: set[str] = set()
         self.loop_alias: dict[str, tuple[str, str]] = {}  # value var -> (container, key var)
         self.alias: dict[str, ast.AST] = {}  # local name -> subscript expression it aliases (mutable element)
+        self.name_alias: dict[str, str] = {}  # `x = y`: x refers to the same object as y
         self._writing_back = False
         self.expected: str | None = None
         self.in_lambda = 0
@@ -923,13 +931,31 @@ class FnTranslator:
             self.pre.extend(self.assign_to(actual, n))
         return names[0] if outs and outs[0] == "ret" else "()"
 
-    def assign_to(self, target, value: str) -> list[str]:
-        """statements for `target = value` where target is a Name / Subscript / self.attr"""
+    def assign_to(self, target, value: str, rebind: bool = False) -> list[str]:
+        """statements for `target = value` where target is a Name / Subscript / self.attr.
+        `rebind=True`: a Python assignment statement (the name is bound to a new object); otherwise the
+        update models an in-place mutation of the object the name refers to, which is propagated to
+        every name known to refer to the same object (`x = y` aliases)."""
         if isinstance(target, ast.Name):
+            if rebind:
+                self.name_alias.pop(target.id, None)
+                for k in [k for k, v in self.name_alias.items() if v == target.id]:
+                    del self.name_alias[k]
             if target.id not in self.declared:
                 self.declared.add(target.id)
                 return [f"let mut {mangle(target.id)} := {value}"]
             out = [f"{mangle(target.id)} := {value}"]
+            if not rebind:
+                seen = {target.id}
+                cur = target.id
+                while cur in self.name_alias and self.name_alias[cur] not in seen:
+                    cur = self.name_alias[cur]
+                    seen.add(cur)
+                    out.append(f"{mangle(cur)} := {mangle(target.id)}")
+                for k, v in self.name_alias.items():
+                    if v in seen and k not in seen:
+                        seen.add(k)
+                        out.append(f"{mangle(k)} := {mangle(target.id)}")
             if target.id in self.loop_alias:
                 cont, keyv = self.loop_alias[target.id]
                 out.append(f"{mangle(cont)} ← setItem {mangle(cont)} {mangle(keyv)} {mangle(target.id)}")
@@ -1255,7 +1281,7 @@ class FnTranslator:
             val = self.expr(s.value)
             if ty:
                 val = f"({val} : {ty})"
-            return self.flush(self.assign_to(s.target, val), ind)
+            return self.flush(self.assign_to(s.target, val, rebind=True), ind)
         if isinstance(s, ast.Assign) and len(s.targets) == 1:
             t, v = s.targets[0], s.value
             # live view: partitions = m.nodes.data(PARTITION)
@@ -1278,20 +1304,20 @@ class FnTranslator:
             if isinstance(v, ast.Call) and isinstance(v.func, ast.Attribute) and v.func.attr == "search" and isinstance(v.func.value, ast.Name) \
                     and v.func.value.id == getattr(self, "regex_var", None):
                 val = f"(searchEndpts {self.e(v.args[0])})"
-                return self.flush(self.assign_to(t, val), ind)
+                return self.flush(self.assign_to(t, val, rebind=True), ind)
             if isinstance(v, ast.Call) and isinstance(v.func, ast.Attribute) and v.func.attr == "group":
                 val = f"(optGet {self.e(v.func.value)})"
-                return self.flush(self.assign_to(t, val), ind)
+                return self.flush(self.assign_to(t, val, rebind=True), ind)
             ty = self.hints.get("types", {}).get(t.id) if isinstance(t, ast.Name) else None
             if isinstance(t, ast.Name) and isinstance(v, ast.Subscript) and not isinstance(v.slice, ast.Slice) \
                     and self.var_mutated_in(t.id, self.fn.body, inplace_only=True) and not self.graph_nodes_subscript_q(v):
                 val = self.expr(v)
-                lines = self.assign_to(t, val)
+                lines = self.assign_to(t, val, rebind=True)
                 self.alias[t.id] = v
                 return self.flush(lines, ind)
             if isinstance(t, ast.Name) and isinstance(v, ast.Call) and isinstance(v.func, ast.Attribute) and v.func.attr == "setdefault":
                 val = self.expr(v)
-                lines = self.assign_to(t, val)
+                lines = self.assign_to(t, val, rebind=True)
                 self.alias[t.id] = ast.Subscript(value=v.func.value, slice=v.args[0], ctx=ast.Load())
                 return self.flush(lines, ind)
             if isinstance(t, ast.Tuple):
@@ -1302,7 +1328,7 @@ class FnTranslator:
                     pat = self.pattern_renamed(t, tmps)
                     lines = [f"let {pat} := {val}"]
                     for n, tm in tmps.items():
-                        lines += self.assign_to(ast.Name(id=n), tm)
+                        lines += self.assign_to(ast.Name(id=n), tm, rebind=True)
                     return self.flush(lines, ind)
                 self.declared |= names
                 # tuple patterns cannot be `let mut`-destructured together with effects; bind then re-declare
@@ -1314,7 +1340,10 @@ class FnTranslator:
             self.expected = None
             if ty:
                 val = f"({val} : {ty})"
-            return self.flush(self.assign_to(t, val), ind)
+            lines = self.assign_to(t, val, rebind=True)
+            if isinstance(t, ast.Name) and isinstance(v, ast.Name) and v.id in self.declared and v.id != t.id:
+                self.name_alias[t.id] = v.id
+            return self.flush(lines, ind)
         if isinstance(s, ast.AugAssign):
             t = s.target
             cur = self.expr(t)
@@ -1325,7 +1354,7 @@ class FnTranslator:
                 val = f"(Dict.update {self.atom(cur)} {v})"
             else:
                 raise Unsupported("augassign op")
-            return self.flush(self.assign_to(t, val), ind)
+            return self.flush(self.assign_to(t, val, rebind=isinstance(s.op, ast.Add)), ind)
         if isinstance(s, ast.Expr) and isinstance(s.value, ast.Call):
             return self.flush(self.call_stmt(s.value), ind)
         if isinstance(s, ast.Expr) and isinstance(s.value, ast.Yield):
@@ -1701,14 +1730,18 @@ def write_generated(outdir: str, repo: str = "/repo") -> Extractor:
     ex = Extractor(repo)
     mods = ex.extract_all()
     os.makedirs(outdir, exist_ok=True)
-    # remove stale files
+    wanted = {name.split(".")[-1] + ".lean" for name in mods}
     for f in os.listdir(outdir):
-        if f.endswith(".lean"):
+        if f.endswith(".lean") and f not in wanted:
             os.remove(os.path.join(outdir, f))
     for name, text in mods.items():
         path = os.path.join(outdir, name.split(".")[-1] + ".lean")
-        with open(path, "w") as f:
+        if os.path.exists(path) and open(path).read() == text:
+            continue
+        tmp = f"{path}.{os.getpid()}.tmp"
+        with open(tmp, "w") as f:
             f.write(text)
+        os.replace(tmp, path)
     return ex
 
 
